@@ -8,69 +8,6 @@ import SV.Model.Iban
 import SV.Spec.All
 open SV
 
-def hexDigit (c : Char) : Option Nat :=
-  if '0' ≤ c ∧ c ≤ '9' then some (c.toNat - 48)
-  else if 'a' ≤ c ∧ c ≤ 'f' then some (c.toNat - 87)
-  else if 'A' ≤ c ∧ c ≤ 'F' then some (c.toNat - 55)
-  else none
-
-def parseHex (s : String) : Option Nat :=
-  if s.isEmpty then none
-  else s.foldl (fun acc c => match acc, hexDigit c with
-    | some a, some d => some (a * 16 + d)
-    | _, _ => none) (some 0)
-
-def parseStr (s : String) : Option Str :=
-  if s == "-" then some []
-  else (s.splitOn ".").mapM parseHex
-
-def hexOf (n : Nat) : String := String.ofList (Nat.toDigits 16 n)
-
-def showStr (s : Str) : String :=
-  if s.isEmpty then "-" else ".".intercalate (s.map hexOf)
-
-def showErr : Err → String
-  | .schwifty => "SchwiftyException" | .invalidLength => "InvalidLength"
-  | .invalidStructure => "InvalidStructure" | .invalidCountryCode => "InvalidCountryCode"
-  | .invalidBankCode => "InvalidBankCode" | .invalidBranchCode => "InvalidBranchCode"
-  | .invalidAccountCode => "InvalidAccountCode" | .invalidChecksumDigits => "InvalidChecksumDigits"
-  | .invalidBBANChecksum => "InvalidBBANChecksum"
-  | .generateRandomOverflow => "GenerateRandomOverflowError"
-
-def showCrash : Crash → String
-  | .valueError => "ValueError" | .keyError => "KeyError" | .indexError => "IndexError"
-  | .typeError => "TypeError" | .assertionError => "AssertionError" | .other => "Other"
-
-def showRes {α : Type} (f : α → String) : Res α → String
-  | .ok a => "ok " ++ f a
-  | .err e => "err " ++ showErr e
-  | .crash c => "crash " ++ showCrash c
-
-def showBool (b : Bool) : String := if b then "T" else "F"
-def showList (l : List Str) : String := "[" ++ ",".intercalate (l.map showStr) ++ "]"
-def showOpt : Option Str → String
-  | none => "None"
-  | some s => showStr s
-
-def parseBool (s : String) : Option Bool :=
-  if s == "T" then some true else if s == "F" then some false else none
-
-def parseComponent (s : String) : Option Component :=
-  match s with
-  | "account_id" => some .accountId | "account_type" => some .accountType
-  | "account_code" => some .accountCode | "account_holder_id" => some .accountHolderId
-  | "currency_code" => some .currencyCode | "bank_code" => some .bankCode
-  | "branch_code" => some .branchCode | "national_checksum_digits" => some .nationalChecksumDigits
-  | _ => none
-
-def parseKV (s : String) : Option (Component × Str) :=
-  match s.splitOn "=" with
-  | [k, v] => do
-    let k ← parseComponent k
-    let v ← parseStr v
-    pure (k, v)
-  | _ => none
-
 structure DState where
   R : Registry := []
 
